@@ -3,28 +3,22 @@
   ONLY property theorems here (helper lemmas: `Scico/Proofs/Driver*.lean`; specifications:
   `Scico/Proofs/DriverSpec.lean`).
 -/
-import Scico.Proofs.DriverTimer
+import Scico.Proofs.DriverSolve
 
 namespace Scico.Props.C15
 open Scico.Driver Scico.Driver.Spec
 
-/-- `_working_vars_finite` is false exactly when some entry of some block of some working
-    variable is non-finite -/
+/-! ## NaN test -/
+
+/-- `_working_vars_finite()` (every class: conjunction of `_all_finite` over the class's working
+    variables) is false exactly when some entry of some block of some working variable is
+    non-finite — plain and block arrays alike -/
 theorem C15_working_vars_finite_iff {α : Type} (fin : α → Bool) (vars : List (Var α)) :
-    workingVarsFinite fin vars = false ↔ hasNonFinite fin vars := by
-  unfold workingVarsFinite hasNonFinite allFinite
-  rw [List.all_eq_false]
-  constructor
-  · rintro ⟨v, hv, hb⟩
-    refine ⟨v, hv, ?_⟩
-    cases v with
-    | plain xs => simpa [Var.any] using hb
-    | block bs => simpa [Var.any] using hb
-  · rintro ⟨v, hv, hb⟩
-    refine ⟨v, hv, ?_⟩
-    cases v with
-    | plain xs => simpa [Var.any] using hb
-    | block bs => simpa [Var.any] using hb
+    workingVarsFinite fin vars = false ↔ hasNonFinite fin vars :=
+  workingVarsFinite_eq_false_iff fin vars
+
+example : workingVarsFinite id [Var.plain [true, true], Var.block [[true], [true, false]]] = false := by
+  decide
 
 /-! ## Interval timer -/
 
@@ -107,5 +101,198 @@ example :
       specElapsed c h (some 7) true 12 = none ∧
       ((Timer.init c.init c.dflt c.all).run h).elapsed (some 1) true 12 = some 3 := by
   refine ⟨⟨by decide, by decide⟩, by decide, by decide, by decide, by decide, by decide, by decide⟩
+
+/-! ## `solve()` -/
+
+section Solve
+variable {ω ρ ξ α L : Type} [DecidableEq L]
+
+/-- **Iteration count.**  A `solve()` that the NaN stop does not interrupt performs exactly
+    `m = max(maxiter, 0)` iterations: the final state is `m`-fold application of "`step()`, then
+    the callback"; `m` records and (with a callback) `m` callback invocations are added. -/
+theorem C15_solve_count (E : Env ω ρ ξ α) (cb : Option (Callback ω)) (d : Drv ω ρ L)
+    (hr : Ready d) (hn : NoTrip E cb d) :
+    (solve E cb d).2 = .ok ∧
+      (solve E cb d).1.world = worldAt E cb d.world d.maxiter.toNat ∧
+      (solve E cb d).1.rows.length = d.rows.length + d.maxiter.toNat ∧
+      (solve E cb d).1.cblog.length = d.cblog.length + (if cb.isSome then d.maxiter.toNat else 0) ∧
+      solveReturn E cb d = E.minimizer (worldAt E cb d.world d.maxiter.toNat) := by
+  obtain ⟨ok, S⟩ := solve_clean E cb d hr.labels hr.past (noTrip_tripsB hn)
+  refine ⟨ok, S.world, by simp [S.rows], ?_, by simp [solveReturn, S.world]⟩
+  rw [S.cblog]
+  cases cb <;> simp
+
+/-- **Numbering.**  The records of the call are numbered consecutively from the counter value
+    at the call, and the counter ends at `itnum + m` — so a later call continues the numbering. -/
+theorem C15_numbering (E : Env ω ρ ξ α) (cb : Option (Callback ω)) (d : Drv ω ρ L)
+    (hr : Ready d) (hn : NoTrip E cb d) :
+    (solve E cb d).1.rows.map (·.iter) =
+        d.rows.map (·.iter) ++ (List.range d.maxiter.toNat).map (fun (k : Nat) => d.itnum + (k : Int)) ∧
+      (solve E cb d).1.itnum = d.itnum + (d.maxiter.toNat : Int) := by
+  obtain ⟨_, S⟩ := solve_clean E cb d hr.labels hr.past (noTrip_tripsB hn)
+  refine ⟨?_, S.itnum⟩
+  rw [S.rows, List.map_append, List.map_map]
+  rfl
+
+/-- **Records.**  One record per performed iteration, in order; record `k` carries the number
+    `itnum + k`, the accessor values `E.fields` of the state right after the `step()` of iteration
+    `k` (before the callback), and the time `specRow` prescribes. -/
+theorem C15_records (E : Env ω ρ ξ α) (cb : Option (Callback ω)) (d : Drv ω ρ L)
+    (hr : Ready d) (hn : NoTrip E cb d) :
+    (solve E cb d).1.rows =
+      d.rows ++ (List.range d.maxiter.toNat).map
+        (specRow E cb d.world d.itnum (d.timer.elapsedDefault true d.clock)) ∧
+    ∀ k, (specRow E cb d.world d.itnum (d.timer.elapsedDefault true d.clock) k).fields =
+      E.fields (E.step (worldAt E cb d.world k)) :=
+  ⟨(solve_clean E cb d hr.labels hr.past (noTrip_tripsB hn)).2.rows, fun _ => rfl⟩
+
+/-- **Callback exactly once per iteration**, after the step and the record of that iteration and
+    before the next step, seeing the counter value of that iteration; no invocation without a
+    callback. -/
+theorem C15_callback_once (E : Env ω ρ ξ α) (cb : Option (Callback ω)) (d : Drv ω ρ L)
+    (hr : Ready d) (hn : NoTrip E cb d) :
+    (solve E cb d).1.cblog =
+      d.cblog ++ (if cb.isSome then
+        (List.range d.maxiter.toNat).map (specCb E cb d.world d.itnum d.clock) else []) ∧
+    ∀ k, (specCb E cb d.world d.itnum d.clock k).itnum = d.itnum + (k : Int) ∧
+      (specCb E cb d.world d.itnum d.clock k).world = E.step (worldAt E cb d.world k) :=
+  ⟨(solve_clean E cb d hr.labels hr.past (noTrip_tripsB hn)).2.cblog, fun _ => ⟨rfl, rfl⟩⟩
+
+/-- **The reported time excludes the callbacks.**  The `Time` of record `k` is the reading of the
+    default timer when `solve` was called plus the durations of the `step()` calls of iterations
+    `0..k` — whatever the callbacks' durations: two callbacks with the same effect on the state
+    but different durations give identical records. -/
+theorem C15_time_excludes_callback (E : Env ω ρ ξ α) (d : Drv ω ρ L) (hr : Ready d)
+    (c c' : Callback ω) (hsame : c.run = c'.run)
+    (hn : NoTrip E (some c) d) (hn' : NoTrip E (some c') d) :
+    (∀ k, (specRow E (some c) d.world d.itnum (d.timer.elapsedDefault true d.clock) k).time =
+        d.timer.elapsedDefault true d.clock + stepTime E (some c) d.world (k + 1)) ∧
+      (solve E (some c) d).1.rows = (solve E (some c') d).1.rows ∧
+      (solve E (some c) d).1.timer.elapsedDefault true (solve E (some c) d).1.clock =
+        d.timer.elapsedDefault true d.clock + stepTime E (some c) d.world d.maxiter.toNat := by
+  obtain ⟨_, S⟩ := solve_clean E (some c) d hr.labels hr.past (noTrip_tripsB hn)
+  obtain ⟨_, S'⟩ := solve_clean E (some c') d hr.labels hr.past (noTrip_tripsB hn')
+  have hw : ∀ k, worldAt E (some c) d.world k = worldAt E (some c') d.world k := by
+    intro k
+    induction k with
+    | zero => rfl
+    | succ k ih => simp [worldAt, iterWorld, cbRun, ih, hsame]
+  refine ⟨fun _ => rfl, ?_, S.timer.read _⟩
+  rw [S.rows, S'.rows]
+  congr 1
+  apply List.map_congr_left
+  intro k _
+  simp only [specRow, stepTime, afterStep, hw]
+
+/-- **Resumption.**  `solve()` with `m₁` iterations, any pause of `g` ticks, then `solve()` with
+    `m₂` iterations ends in the same state, records (numbers, times, fields) and timer as one
+    `solve()` with `m₁ + m₂` iterations; the clock differs by the pause, and without a pause the
+    callback logs agree as well. -/
+theorem C15_resume (E : Env ω ρ ξ α) (cb : Option (Callback ω)) (d : Drv ω ρ L) (m1 m2 g : Nat)
+    (hr : Ready d) (hn : NoTrip E cb (d.setMaxiter ((m1 + m2 : Nat) : Int))) :
+    let r1 := solve E cb (d.setMaxiter m1)
+    let r2 := solve E cb ((r1.1.tick g).setMaxiter m2)
+    let r := solve E cb (d.setMaxiter ((m1 + m2 : Nat) : Int))
+    r1.2 = .ok ∧ r2.2 = .ok ∧ r.2 = .ok ∧ r2.1.world = r.1.world ∧ r2.1.itnum = r.1.itnum ∧
+      r2.1.rows = r.1.rows ∧ r2.1.timer = r.1.timer ∧ r2.1.clock = r.1.clock + g ∧
+      (g = 0 → r2.1.cblog = r.1.cblog) := by
+  apply solve_resume E cb d m1 m2 g hr.labels hr.past
+  have := noTrip_tripsB hn
+  simp only [setMaxiter_maxiter, Int.toNat_natCast, setMaxiter_nanstop, setMaxiter_world] at this
+  exact this
+
+/-- **NaN stop.**  If `j` is the first iteration (0-based) after whose `step()` some entry of some
+    block of some working variable is non-finite (with `nanstop` on), `solve()` raises in that
+    iteration: the counter shows `itnum + j`, exactly the records and callbacks of the `j` earlier
+    iterations exist, the state is the one right after that step. -/
+theorem C15_nanstop (E : Env ω ρ ξ α) (cb : Option (Callback ω)) (d : Drv ω ρ L) (hr : Ready d)
+    (j : Nat) (hj : j < d.maxiter.toNat) (hbefore : ∀ k < j, ¬ tripsAt E cb d.world d.nanstop k)
+    (hat : tripsAt E cb d.world d.nanstop j) :
+    (solve E cb d).2 = .nan ∧ (solve E cb d).1.itnum = d.itnum + (j : Int) ∧
+      (solve E cb d).1.world = E.step (worldAt E cb d.world j) ∧
+      (solve E cb d).1.rows = d.rows ++ (List.range j).map
+        (specRow E cb d.world d.itnum (d.timer.elapsedDefault true d.clock)) ∧
+      (solve E cb d).1.cblog.length = d.cblog.length + (if cb.isSome then j else 0) := by
+  have hb : ∀ k < j, tripsB E d.nanstop (afterStep E cb d.world k) = false := by
+    intro k hk
+    have := hbefore k hk
+    rw [← tripsB_iff] at this
+    simpa using this
+  obtain ⟨o, S⟩ := solve_trip E cb d hr.labels hr.past j hj hb ((tripsB_iff E cb d.world d.nanstop j).mpr hat)
+  refine ⟨o, S.itnum, S.world, S.rows, ?_⟩
+  rw [S.cblog]
+  cases cb <;> simp
+
+/-- **…and not before, and never otherwise.**  `solve()` raises the NaN-stop exception iff some
+    iteration of the call trips the test; it never ends in any other exception (in particular the
+    timer calls inside `solve` cannot raise `KeyError`). -/
+theorem C15_nanstop_iff (E : Env ω ρ ξ α) (cb : Option (Callback ω)) (d : Drv ω ρ L) (hr : Ready d) :
+    ((solve E cb d).2 = .nan ↔ ∃ j < d.maxiter.toNat, tripsAt E cb d.world d.nanstop j) ∧
+      (solve E cb d).2 ≠ .key := by
+  rcases first_trip (fun k => tripsB E d.nanstop (afterStep E cb d.world k)) d.maxiter.toNat with
+    h | ⟨j, hj, hc, ht⟩
+  · obtain ⟨ok, _⟩ := solve_clean E cb d hr.labels hr.past h
+    refine ⟨⟨fun hn => (by rw [ok] at hn; cases hn), ?_⟩, (by rw [ok]; simp)⟩
+    rintro ⟨j, hj, hat⟩
+    have := (tripsB_iff E cb d.world d.nanstop j).mpr hat
+    rw [h j hj] at this
+    cases this
+  · obtain ⟨o, _⟩ := solve_trip E cb d hr.labels hr.past j hj hc ht
+    exact ⟨⟨fun _ => ⟨j, hj, (tripsB_iff E cb d.world d.nanstop j).mp ht⟩, fun _ => o⟩, (by rw [o]; simp)⟩
+
+/-- **`maxiter = 0`** (or negative): no step, no record, no callback, the counter and the clock
+    are unchanged, the timer reads what it read (the defect of the pinned tree — the counter was
+    incremented — is repaired by commit 4b50827). -/
+theorem C15_maxiter_zero (E : Env ω ρ ξ α) (cb : Option (Callback ω)) (d : Drv ω ρ L)
+    (hr : Ready d) (hm : d.maxiter ≤ 0) :
+    (solve E cb d).2 = .ok ∧ (solve E cb d).1.world = d.world ∧ (solve E cb d).1.itnum = d.itnum ∧
+      (solve E cb d).1.rows = d.rows ∧ (solve E cb d).1.cblog = d.cblog ∧
+      (solve E cb d).1.clock = d.clock ∧
+      (solve E cb d).1.timer.elapsedDefault true d.clock = d.timer.elapsedDefault true d.clock := by
+  have hz : d.maxiter.toNat = 0 := by omega
+  obtain ⟨ok, S⟩ := solve_clean E cb d hr.labels hr.past (by rw [hz]; intro k hk; omega)
+  have Sw := S.world; have Si := S.itnum; have Sr := S.rows; have Sb := S.cblog
+  have Sc := S.clock; have St := S.timer
+  rw [hz] at Sw Si Sr Sb Sc St
+  refine ⟨ok, Sw, by simpa using Si, by simpa using Sr, ?_, by simpa [stepTime, cbTime] using Sc, ?_⟩
+  · rw [Sb]; cases cb <;> simp
+  · rw [St.read]; simp [stepTime]
+
+end Solve
+
+/-! ### non-vacuity: a concrete optimiser satisfying every hypothesis above -/
+
+/-- state = number of steps taken; a step takes `w + 1` ticks; one block-array working variable
+    whose second block becomes non-finite from the 4th step on -/
+def exEnv : Env Nat Nat Nat Bool :=
+  { step := fun w => w + 1, stepTicks := fun w => w + 1,
+    vars := fun w => [Var.plain [true], Var.block [[true], [decide (w < 4)]]], fin := id,
+    fields := fun w => 10 * w, minimizer := id }
+
+def exCb : Callback Nat := { run := id, ticks := fun _ => 100 }
+
+/-- `Optimizer(iter0=2, maxiter=3, nanstop=True)` at clock 7; labels 0 = "main", 1 = "all" -/
+def exDrv : Drv Nat Nat Nat := Drv.init 0 { iter0 := 2, maxiter := 3, nanstop := true } 0 1 7
+
+example : Ready exDrv := ready_init 0 _ 0 1 7 (by decide)
+
+example : NoTrip exEnv (some exCb) exDrv := by
+  intro k hk
+  have hk' : k < 3 := hk
+  rw [← tripsB_iff]
+  have : k = 0 ∨ k = 1 ∨ k = 2 := by omega
+  rcases this with rfl | rfl | rfl <;> decide
+
+-- three records numbered 2,3,4; times 1, 1+2, 1+2+3 although each callback takes 100 ticks
+example : (solve exEnv (some exCb) exDrv).1.rows.map (fun r => (r.iter, r.time, r.fields)) =
+    [(2, 1, 10), (3, 3, 20), (4, 6, 30)] := by decide
+example : (solve exEnv (some exCb) exDrv).1.itnum = 5 ∧ (solve exEnv (some exCb) exDrv).1.clock = 313 := by
+  decide
+-- resuming for three more iterations trips the NaN stop in the iteration numbered 5 (4th step)
+example : (solve exEnv none (solve exEnv (some exCb) exDrv).1).2 = .nan ∧
+    (solve exEnv none (solve exEnv (some exCb) exDrv).1).1.itnum = 5 := by decide
+example : tripsAt exEnv none 3 true 0 := by
+  refine ⟨rfl, Var.block [[true], [false]], by simp [exEnv, afterStep, worldAt], ?_⟩
+  exact ⟨[false], by simp, false, by simp, rfl⟩
 
 end Scico.Props.C15
